@@ -17,6 +17,8 @@ Sections:
                                                                         -> (entry of M, key of F, .flattenIfPresent)
                 font_info.validate().map_err(FontLoadError::FontInfoV1Upconversion)?;
                                                                         -> hintValidateAfter = number of rows before it
+              (an unconditional assignment rewritten as a conditional one, or the reverse, is an UNKNOWN shape: no
+              format-1 attribute reaches these members, so the two are indistinguishable and must not raise an alarm)
               (key of F = serde key of the member F of `struct FontInfo`, src/fontinfo.rs)
   features    the statements that build the feature text:
                 if let Some(c) = lib_data.A { features.push_str(&c); }  -> (key of A, "features", .appendText)
@@ -157,11 +159,6 @@ def parse(repo):
             m = re.match(r"ifletSome\((\w+)\)=" + h + r"\.(\w+)\{font_info\.(\w+)=Some\(\1\.into_iter\(\)\.flatten\(\)\.collect\(\)\);\};?", s)
             if m:
                 P.hint_rows.append((hintkey[m.group(2)], keyof[m.group(3)], "flattenIfPresent"))
-                s = s[m.end():]
-                continue
-            m = re.match(r"ifletSome\((\w+)\)=" + h + r"\.(\w+)\{font_info\.(\w+)=Some\(\1\);\};?", s)
-            if m:
-                P.hint_rows.append((hintkey[m.group(2)], keyof[m.group(3)], "copyIfPresent"))
                 s = s[m.end():]
                 continue
             m = re.match(r"font_info\.validate\(\)\.map_err\(FontLoadError::FontInfoV1Upconversion\)\?;", s)
